@@ -41,6 +41,9 @@ func (p *Parser) ParseLongString() (*ast.String, error) {
 	p.NextToken()
 
 	str, err := p.ParseString()
+	if err != nil {
+		return nil, errors.WithStack(err)
+	}
 	str.LongString = true
 	str.Delimiter = delimiter
 	str.Token.Position -= len(delimiter)
@@ -60,7 +63,7 @@ func (p *Parser) ParseLongString() (*ast.String, error) {
 	str.EndLine = p.curToken.Token.Line
 	str.EndPosition = p.curToken.Token.Position
 
-	return str, err
+	return str, nil
 }
 
 func (p *Parser) ParseString() (*ast.String, error) {
